@@ -81,18 +81,18 @@ REG["C13"] = dict(
 )
 
 REG["C19"] = dict(
-    harnesses=[H(P + "/variant", "VerifH_C19_primitives"), H(P + "/variant", "VerifH_C19_containers")],
-    explanation="variant.Encode -> decodeValue/Decode on the real code: every primitive kind (null, bool, int8..int64, float, double, date, the five time/timestamp kinds, uuid, decimal4/8/16 with symbolic scale, short and long strings around the 63/64-byte boundary, binary) with symbolic payload decodes to a value Equal to the original (floats bit-exact) and the decoder consumes exactly the encoded length; small containers (arrays, objects with unsorted field names, nesting depth 3) of symbolic integers round-trip.",
+    harnesses=[H(P + "/variant", "VerifH_C19_primitives"), H(P + "/variant", "VerifH_C19_containers"), H(P + "/variant", "VerifH_C19_wideDictionaryObject")],
+    explanation="variant.Encode -> decodeValue/Decode on the real code: every primitive kind (null, bool, int8..int64, float, double, date, the five time/timestamp kinds, uuid, decimal4/8/16 with symbolic scale, short and long strings around the 63/64-byte boundary, binary) with symbolic payload decodes to a value Equal to the original (floats bit-exact) and the decoder consumes exactly the encoded length; small containers (arrays, objects with unsorted field names, nesting depth 3) of symbolic integers round-trip, also when the metadata dictionary holds 300 names and the object's greatest field name has the smallest id (two-byte field ids).",
     bounds={"quick": "one primitive per path with fully symbolic payload; strings of length {0,1,3,63,64,65} with 3 symbolic ASCII bytes; binary <=4 bytes; 4 container shapes with 3 symbolic leaves", "thorough": "same"},
     outside=["shredding (variant_shredded_*.go, convert_variant.go): schema- and reflection-driven, not decided", "non-ASCII UTF-8 strings", "reflection-based Marshal"],
     assumptions=["sort.Slice is modelled by a stable insertion sort using the caller's less function"],
 )
 
 REG["C10"] = dict(
-    harnesses=[H(P, "VerifH_C10_optionalSort"), H(P, "VerifH_C10_nullOrderingLaws"), H(P, "VerifH_C10_repeatedSort")],
-    explanation="(K1) optionalColumnBuffer over a real int64 column buffer: rows with symbolic keys and every null mask are written in two batches, sorted with the standard library's sort.Sort (executed from SSA) and materialised with Page(); the page holds every written value exactly once with its level (values carry distinct tags), nulls are where the null ordering says and non-null values are ascending/descending as configured. (K2) nullsGoFirst/nullsGoLast are strict weak orders (irreflexive, asymmetric, transitive, transitive incomparability) for symbolic values and all definition-level triples. (K3) repeatedColumnBuffer.Less equals the lexicographic order over all values of the two rows, and sorting keeps every row intact and in that order.",
+    harnesses=[H(P, "VerifH_C10_optionalSort"), H(P, "VerifH_C10_nullOrderingLaws"), H(P, "VerifH_C10_repeatedSort"), H(P, "VerifH_C10_comparatorColumns")],
+    explanation="(K1) optionalColumnBuffer over a real int64 column buffer: rows with symbolic keys and every null mask are written in two batches, sorted with the standard library's sort.Sort (executed from SSA) and materialised with Page(); the page holds every written value exactly once with its level (values carry distinct tags), nulls are where the null ordering says and non-null values are ascending/descending as configured. (K2) nullsGoFirst/nullsGoLast are strict weak orders (irreflexive, asymmetric, transitive, transitive incomparability) for symbolic values and all definition-level triples. (K3) repeatedColumnBuffer.Less equals the lexicographic order over all values of the two rows, and sorting keeps every row intact and in that order. (K4) Schema.Comparator on a schema with a repeated column before the sorting columns: for rows whose repeated column holds 0..2 values, the comparison is decided by the sorting columns only (first key ascending/descending, second optional key with nulls first/last as tie-break).",
     bounds={"quick": "K1: n<=3 rows, 2 batches, both null orderings, ascending/descending; K2: 3 values x 27 level triples; K3: 2 rows of 1..2 values", "thorough": "K1: n<=4; K3: 3 rows"},
-    outside=["column_buffer_amd64.s fill kernel", "SortingWriter (temp file + merge + WriteRowGroup glue)", "RowBuffer", "multi-column tie-breaking against Schema.Comparator (DESIGN K4 not built yet)", "repeated rows containing nulls"],
+    outside=["column_buffer_amd64.s fill kernel", "SortingWriter (temp file + merge + WriteRowGroup glue)", "RowBuffer", "Buffer.Less/Swap over several sorting columns", "repeated rows containing nulls"],
 )
 
 REG["C09"] = dict(
